@@ -126,6 +126,8 @@ func ensureBuilt(race bool) string {
 	}
 	bin := filepath.Join(cache, name)
 	if _, err := os.Stat(bin); err == nil {
+		now := time.Now()
+		os.Chtimes(cache, now, now) // least-recently-used eviction: a binary in use is never the oldest
 		return bin
 	}
 	os.MkdirAll(filepath.Join(verifDir, ".cache"), 0o755)
@@ -192,7 +194,6 @@ replace verif/simrt => %s/simrt
 		die(2, "cp: %v", err)
 	}
 	os.Rename(bin+".tmp", bin)
-	// keep the three most recent cache entries
 	ents, _ := os.ReadDir(filepath.Join(verifDir, ".cache"))
 	type ent struct {
 		name string
@@ -208,7 +209,9 @@ replace verif/simrt => %s/simrt
 	}
 	sort.Slice(dirs, func(i, j int) bool { return dirs[i].t.After(dirs[j].t) })
 	for i, d := range dirs {
-		if i >= 3 && d.name != hash {
+		// keep the six most recently used entries, and nothing used in the last
+		// half hour is removed (another check may be running its binary)
+		if i >= 6 && d.name != hash && time.Since(d.t) > 30*time.Minute {
 			os.RemoveAll(filepath.Join(verifDir, ".cache", d.name))
 		}
 	}
